@@ -4,6 +4,7 @@
 mod c08;
 mod c11;
 mod c16;
+mod c20;
 mod client;
 mod repo;
 mod util;
@@ -21,6 +22,7 @@ fn run_object(v: &Value) -> Value {
     RT.with(|rt| POOL.with(|pool| match p {
         6 => client::run(rt, pool, v),
         15 => client::run_single(rt, pool, v),
+        20 => c20::inspect(pool, v),
         _ => json!([999]),
     }))
 }
@@ -40,6 +42,7 @@ fn run_case(v: &Value) -> Value {
         8 => c08::run(op, args),
         11 => c11::run(op, args),
         16 => c16::run(op, args),
+        20 => POOL.with(|pool| c20::run(pool, op, args)),
         _ => json!([999]),
     }
 }
